@@ -15,6 +15,7 @@ import (
 	"verif/mc/props/c13"
 	"verif/mc/props/c14"
 	"verif/mc/props/c17"
+	"verif/mc/props/c18"
 	"verif/mc/props/c19"
 )
 
@@ -32,6 +33,7 @@ func main() {
 		"C13": c13.Prop,
 		"C14": c14.Prop,
 		"C17": c17.Prop,
+		"C18": c18.Prop,
 		"C19": c19.Prop,
 	})
 }
